@@ -1,10 +1,3 @@
 #!/bin/sh
-# Fails if the development contains forbidden vernacular.
-cd /verif/coq || exit 2
-if grep -rnE '(^|[^A-Za-z_])(Admitted|admit|Axiom|Axioms|Parameter|Parameters|Conjecture|Admit Obligations|Unset Guard Checking|Unset Positivity Checking|Unset Universe Checking|bypass_check|type-in-type|impredicative-set|native_compute)([^A-Za-z_]|$)' --include='*.v' --include='_CoqProject' . ; then
-  echo "AUDIT FAILED: forbidden vernacular found" >&2
-  exit 1
-fi
-# Variable / Hypothesis outside a section would declare an axiom: list them with context for review
-awk 'FNR==1{depth=0} /^[ \t]*Section /{depth++} /^[ \t]*End /{if(depth>0)depth--} /^[ \t]*(Variable|Variables|Hypothesis|Hypotheses|Context)[ \t]/{ if(depth==0){print FILENAME":"FNR": "$0; bad=1} } END{exit bad}' $(find . -name '*.v') || { echo "AUDIT FAILED: Variable/Hypothesis/Context outside a section" >&2; exit 1; }
-echo "audit ok"
+# Fails if the development contains forbidden vernacular (comments are stripped first).
+exec python3 /verif/scripts/audit.py
